@@ -164,7 +164,8 @@ def sweep(tier="quick", seed=0, unsupported=()):
     failures, cases = [], 0
 
     def add(f):
-        if f is not None and not any(x["what"] == f["what"] for x in failures):
+        key = lambda x: (x["what"], x["input"].get("kind"), x["input"].get("k") == 0)  # noqa: E731
+        if f is not None and not any(key(x) == key(f) for x in failures):
             failures.append(f)
 
     kinds = ["serial-delta", "serial-single", "serial-double", "serial-delta-alif", "recurrent"]
